@@ -66,7 +66,9 @@ def run(ctx):
             rawpats += [bp, bp]
         # bracket expressions built from the pieces the scanner treats specially: ranges (valid, reversed, sharing a hyphen),
         # stray hyphens, escaped members - `\/` and `\\` among them, which in path mode end the bracket -, classes, operators
-        btoks = ['a', 'b', 'z', '-', 'b-a', 'z-a', '9-0', 'a-b', '0-9', '!', '^', '\\/', '/', '\\-', '\\]', '\\\\', '[:alpha:]', '[:digit:]', '*', '|', '&&', '~~', '--', '[', '.', '#']
+        btoks = ['a', 'b', 'z', '-', 'b-a', 'z-a', '9-0', 'a-b', '0-9', '!', '^', '\\/', '/', '\\-', '\\]', '\\\\', '[:alpha:]', '[:digit:]', '*', '|', '&&', '~~', '--', '[', '.', '#',
+                 # range end points around the separators' code points (0x2f, 0x5c), also written as escapes
+                 'A-', '0-', 'Z-', ':-', '+-', 'A-\\\\', '0-\\/', '+-\\\\', '\\\\-a', '\\/-9', 'A', 'Z', '0']
         for _ in range(500 if ctx.quick else 5000):
             body = ''.join(rng.choice(btoks) for _ in range(rng.randint(1, 5)))
             rawpats.append(rng.choice(['', '', 'a', '*', '@(', '+(a|', 'x/', '!(']) + '[' + rng.choice(['', '', '!', '^']) + body + ']' + rng.choice(['', '', 'b', '*', ')', '/y', '|x)']))
